@@ -891,6 +891,55 @@ def reduce_obs(what, x):
     return out
 
 
+def _vals_of(what, x):
+    """the array holding the values of a field / the matrix entries of a mode basis (None for grids)"""
+    if what == 'field':
+        return np.asarray(x)
+    if what == 'basis':
+        T = x._transformation_matrix
+        return T.data if hasattr(T, 'indptr') or hasattr(T, 'row') else (np.asarray(T) if isinstance(T, np.ndarray) else None)
+    return None
+
+
+def _num_list(a, n=6):
+    """the first values of an array as exact protocol numbers (real kinds only)"""
+    a = np.asarray(a)
+    if a.dtype.kind not in 'biuf':
+        return '[]'
+    flat = np.ascontiguousarray(a).ravel()[:n]
+    if a.dtype.kind == 'b':
+        return '[' + ','.join('1' if v else '0' for v in flat) + ']'
+    if a.dtype.kind in 'iu':
+        return '[' + ','.join(str(int(v)) for v in flat) + ']'
+    if not np.all(np.isfinite(flat.astype('float64'))):
+        return '[]'
+    return '[' + ','.join(rat(float(v)) for v in flat) + ']'
+
+
+def dtype_obs(obs, what, route, x, y, fn=None):
+    """record, for the model's readDType / fitsCard: the dtype written, the dtype of what was read back through `route`,
+    and for FITS images the BITPIX / BZERO cards and the numbers actually stored in the file"""
+    a, b = _vals_of(what, x), _vals_of(what, y) if y is not None else None
+    if a is None or (y is not None and b is None) or a.dtype.kind not in 'biufc':
+        return
+    rec = {'route': route, 'd': a.dtype.str, 'vals': _num_list(a), 'read': None if y is None else b.dtype.str}
+    if fn is not None and route.startswith('fits-image') and y is not None:
+        from astropy.io import fits
+        with fits.open(fn, memmap=False, do_not_scale_image_data=True) as hd:
+            h = hd[0].header
+            rec['card'] = '%d/%d' % (int(h['BITPIX']), int(h.get('BZERO', 0)))
+            raw = np.array(hd[0].data)
+        if what == 'basis':
+            # image axes (mode, tensor..., grid...): bring the stored numbers into the order of the matrix
+            T = x.to_dense().transformation_matrix
+            raw = np.moveaxis(raw.reshape((T.shape[-1],) + tuple(T.shape[:-1])), 0, -1)
+            rec['vals'] = _num_list(T)
+        else:
+            raw = raw.reshape(np.asarray(x).shape)
+        rec['stored'] = _num_list(raw)
+    obs.setdefault('dtypes', []).append(rec)
+
+
 def round_trips(spec, tmpdir):
     """Run every round trip of one object.  Returns (observations, failures); a failure is
     (key, what-text).  Observations feed the correspondence."""
@@ -1016,6 +1065,7 @@ def round_trips(spec, tmpdir):
                     y = cls.from_dict(tree)
                 obs['dict_tree'] = encode(tree)
                 obs['dict_back'] = encode(y.to_dict())
+                dtype_obs(obs, what, 'dict', x, y)
                 if compare(y, 'to_dict/from_dict', 'dict') and shares_memory(what, x, y):
                     fails.append(('aliasing:%s:dict' % what, 'from_dict(to_dict(x)) shares array memory with x: it is not a separate object'))
             except MachineryError:
@@ -1050,6 +1100,8 @@ def round_trips(spec, tmpdir):
                 if what == 'field' and route == 'pickle.dumps/loads':
                     obs['pickle_back'] = encode(y.to_dict())
                     obs['pickle_flag'] = 'f' if np.isfortran(np.asarray(x)) else 'c'
+                if route in ('pickle.dumps(protocol=2)/loads', 'pickle.dumps(protocol=5)/loads') and what != 'grid':
+                    dtype_obs(obs, what, 'pickle' if what == 'field' else ('pickle-object-5' if 'protocol=5' in route else 'pickle-object'), x, y)
                 if compare(y, route, 'pickle') and separate and shares_memory(what, x, y):
                     fails.append(('aliasing:%s:pickle' % what, '%s shares array memory with the original' % route))
                 obs['inmem_routes'] = obs.get('inmem_routes', 0) + 1
@@ -1076,6 +1128,8 @@ def round_trips(spec, tmpdir):
                 o['w'] = ERRMAP.get(type(e).__name__, 'other:' + type(e).__name__)
                 o['w_msg'] = str(e)[:100]
                 unchanged('a refused write_%s(%s)' % (what, fmt), fam)
+                if fam == 'fits' and o['w'] == 'key' and what != 'grid':
+                    dtype_obs(obs, what, 'fits-image-' + what, x, None)      # KeyError: astropy has no BITPIX for the dtype
                 if os.path.exists(fn):
                     # "whenever it can be written, reading back succeeds": a refused write that leaves a file has written something
                     o['left'] = True
@@ -1112,6 +1166,15 @@ def round_trips(spec, tmpdir):
             if unreg and fam != 'pickle':
                 # the model's theorem (and the stated assumption) say such a file is not readable
                 obs['unregistered_read_ok'] = fmt
+            if what != 'grid':
+                droute = {'asdf': 'asdf', 'pickle': 'pickle' if what == 'field' else 'pickle-object',
+                          'fits': 'fits-tree' if o['img'] in (None, 'N') else 'fits-image-' + what}[fam]
+                try:
+                    dtype_obs(obs, what, droute, x, y, fn)
+                except MachineryError:
+                    raise
+                except Exception as e:  # noqa  (a fault while observing is a broken correspondence, not a crash)
+                    obs.setdefault('dtype_faults', []).append('%s: %s' % (droute, type(e).__name__))
             if compare(y, 'write/read %s' % fmt, fam):
                 read_back[fmt] = y
             unchanged('read_%s(%s)' % (what, fmt), fam)
@@ -1326,6 +1389,15 @@ def model_requests(spec, obs):
         if what == 'field' and 'getstate' in obs:
             lay, exp = obs['getstate']
             reqs.append(('getstate', 'C16 getstate field %s %s' % (lay, obs['dict_tree']), exp))
+    for rec in obs.get('dtypes', []):
+        tag = rec['d'].lstrip('<>|=')
+        if rec['read'] is None:
+            exp = 'err key'
+        elif 'card' in rec:
+            exp = 'ok read=%s tag=%s holds=true card=%s fits=true stored=%s back=%s' % (rec['read'], tag, rec['card'], rec['stored'], rec['vals'])
+        else:
+            exp = 'ok read=%s tag=%s holds=true' % (rec['read'], tag)
+        reqs.append(('dtype', 'C16 dtype %s %s %s' % (rec['route'], rec['d'], rec['vals']), exp))
     if 'tree' not in obs and 'nogrid_tree' in obs:
         # a mode basis without grid has no dictionary form: every write with a resolvable format is refused with
         # AttributeError (to_dict() runs before the dispatch), in pickle and unknown formats too
@@ -1455,6 +1527,10 @@ def check_spec(ctx, spec, tmpdir, batch):
                                           'model': 'a grid with an unregistered coordinate system is written but not readable'})
     if 'getstate' in obs:
         ctx.count('getstate-layout:' + obs['getstate'][0])
+    for rec in obs.get('dtypes', []):
+        ctx.count('dtype-route:%s:%s' % (rec['route'], 'refused' if rec['read'] is None else ('%s->%s' % (rec['d'], rec['read']))))
+    for fault in obs.get('dtype_faults', []):
+        ctx.disagree('C16 dtype-observation', {'spec': spec, 'impl': fault, 'model': 'the dtype and the FITS cards of every file can be read'})
     ctx.count('in-memory-routes (pickle protocols 0-5, out-of-band, deepcopy, copy)', obs.get('inmem_routes', 0))
     if obs.get('oob_buffers'):
         ctx.count('pickle-out-of-band-buffers', obs['oob_buffers'])
